@@ -496,17 +496,22 @@ def branch_reach(rng, df, date, params):
 def replicate_with_wages(base, wages, column="bruttolohn_m", who=0):
     """Copies of the (few-household) population `base`, one per wage, with disjoint ids; in copy i the
     person in row `who` earns wages[i].  Used for sweeps along one input."""
-    parts = []
+    wages = np.asarray(wages, dtype=float)
+    m, k = len(base), len(wages)
     n_p = int(base["p_id"].max()) + 1
     n_h = int(base["hh_id"].max()) + 1
-    for i, w in enumerate(wages):
-        b = base.copy()
-        pm = {int(p): int(p) + i * n_p for p in base["p_id"]}
-        hm = {int(h): int(h) + i * n_h for h in base["hh_id"].unique()}
-        b = relabel(b, pm, hm)
-        b.iloc[who, b.columns.get_loc(column)] = float(w)
-        parts.append(b)
-    out = pd.concat(parts, ignore_index=True)
+    idx = np.tile(np.arange(m), k)
+    off = np.repeat(np.arange(k), m)
+    out = base.iloc[idx].reset_index(drop=True)
+    out["p_id"] = out["p_id"].to_numpy() + off * n_p
+    for c in POINTERS:
+        if c in out:
+            v = out[c].to_numpy()
+            out[c] = np.where(v >= 0, v + off * n_p, v)
+    out["hh_id"] = out["hh_id"].to_numpy() + off * n_h
+    col = out[column].to_numpy().astype(float).copy()
+    col[np.arange(k) * m + who] = wages
+    out[column] = col
     for c in base.columns:
         out[c] = out[c].astype(base[c].dtype)
     return out
